@@ -196,3 +196,32 @@ M['C14'] = [
     dict(id='c14-benign-alloc-mul-overflow-form', kind='benign', edits=[
         ('src/array.c', '    if (sz != 0 && nm > (SIZE_MAX - sizeof(*ra)) / sz) {', '    if (sz > 0 && (SIZE_MAX - sizeof(*ra)) / sz < nm) {')]),
 ]
+
+# ------------------------------------------------------------------------------------------- C16
+M['C16'] = [
+    dict(id='c16-vector-commit-before-check', kind='fault', rule='F1', edits=[
+        ('src/vector.c', '        if (e != NULL) {\n            v->elem.base = e;\n            v->cap = sz;\n        }', '        v->elem.base = e;\n        if (e != NULL) {\n            v->cap = sz;\n        }')]),
+    dict(id='c16-hash-capacity-committed-on-failure', kind='fault', rule='F1', edits=[
+        ('src/hash.c', '    if (at != NULL) {\n        h->bucket.at = at;\n        h->bucket.capacity = sz;\n    }', '    if (at != NULL) {\n        h->bucket.at = at;\n    }\n    h->bucket.capacity = sz;')]),
+    dict(id='c16-map-node-unchecked', kind='fault', rule='F1', edits=[
+        ('src/map.c', '    if (n) {\n        n->key = key;\n        n->val = val;\n    }', '    n->key = key;\n    n->val = val;')]),
+    dict(id='c16-unique-alloc-sets-clr-on-failure', kind='fault', rule='F1', edits=[
+        ('src/memory.c', '        if (ptr != NULL) {\n            cstl_guarded_ptr_set(&up->gp, ptr);\n            up->clr.func = clr;\n            up->clr.priv = priv;\n        }', '        if (ptr != NULL) {\n            cstl_guarded_ptr_set(&up->gp, ptr);\n        }\n        up->clr.func = clr;\n        up->clr.priv = priv;')]),
+    dict(id='c16-shared-alloc-leaks-bookkeeping', kind='fault', rule='F5', edits=[
+        ('src/memory.c', '                data = NULL;\n            }\n\n            free(data);', '                data = NULL;\n            }')]),
+    dict(id='c16-map-insert-reports-success-on-failure', kind='fault', rule='F3', edits=[
+        ('src/map.c', '        err = -1;\n        node = cstl_map_node_alloc(key, val);', '        err = 0;\n        node = cstl_map_node_alloc(key, val);')]),
+    dict(id='c16-hash-resize-ignores-failed-capacity', kind='fault', rule='F2', edits=[
+        ('src/hash.c', '        if (h->bucket.at != NULL\n            && count <= h->bucket.capacity\n            && (count != h->bucket.count', '        if (h->bucket.at != NULL\n            && (count != h->bucket.count')]),
+    dict(id='c16-vector-resize-continues-after-failure', kind='fault', rule='F2', edits=[
+        ('src/vector.c', '        abort(); // GCOV_EXCL_LINE', '        ; // keep going')]),
+    dict(id='c16-map-insert-links-null-node', kind='fault', rule=['F1', 'F2', 'F3'], edits=[
+        ('src/map.c', '        if (node != NULL) {\n            cstl_rbtree_insert(&map->t, node, p);\n            err = 0;\n        }', '        cstl_rbtree_insert(&map->t, node, p);\n        if (node != NULL) {\n            err = 0;\n        }')]),
+    dict(id='c16-benign-map-node-early-return', kind='benign', edits=[
+        ('src/map.c', '    if (n) {\n        n->key = key;\n        n->val = val;\n    }\n    return n;', '    if (n == NULL) {\n        return NULL;\n    }\n    n->key = key;\n    n->val = val;\n    return n;')]),
+    dict(id='c16-benign-shared-alloc-restructured', kind='benign', edits=[
+        ('src/memory.c', '            if (cstl_unique_ptr_get(&data->up) != NULL) {\n                cstl_guarded_ptr_set(&sp->data, data);\n                data = NULL;\n            }\n\n            free(data);',
+         '            if (cstl_unique_ptr_get(&data->up) == NULL) {\n                free(data);\n            } else {\n                cstl_guarded_ptr_set(&sp->data, data);\n            }')]),
+    dict(id='c16-benign-hash-setter-early-return', kind='benign', edits=[
+        ('src/hash.c', '    if (at != NULL) {\n        h->bucket.at = at;\n        h->bucket.capacity = sz;\n    }', '    if (at == NULL) {\n        return;\n    }\n    h->bucket.at = at;\n    h->bucket.capacity = sz;')]),
+]
